@@ -466,11 +466,9 @@ def run_impl(case):
     out = []
     prev = None
     for op in case["ops"]:
-        if overread_hazard(impl, op):
-            # finding F15: executing this would make the binding read past numpy buffers
-            # (garbage in the table, possibly a crash).  Exercised only in the forked
-            # `hazard` family; a sequence (e.g. one produced by the minimiser) stops here.
-            break
+        # (F15, repaired by b50fe2e: a metadata_offset of the wrong length is refused again, so
+        # such operations are executed like any other; `overread_hazard` is kept only as a
+        # description of the input class and is no longer consulted.)
         try:
             res = ["ok", impl.apply(op)]
         except Exception as e:        # the exception class is the observation
@@ -651,11 +649,8 @@ def gen_ops(rng, name, nops, p_bad=0.04, incr=0):
             m = n + (1 if bad else 0)
             if name == "populations":
                 m = n       # its only column: any length is a legitimate new table (not generated)
-            if bad and name in ("sites", "mutations") and j == md:
-                # a longer metadata list makes the binding read past the other arrays
-                # (finding metadata-offset-length); the over-read variant lives in the
-                # forked `hazard` family, only the shorter one is generated here
-                m = max(n - 1, 0)
+            if bad and j == md and rng.random() < 0.5:
+                m = max(n - 1, 0)       # shorter as well as longer lists (F15 class)
             op = [k, j, [rand_ragged(rng, kind, is_str, n, selfref == ("r", j)) for _ in range(m)]]
         elif k == "setattr":
             cols = columns_of(nf, nr, ref.rows)
